@@ -113,6 +113,10 @@ func (nfs *Nfs) NFSPROC3_SETATTR(args nfstypes.SETATTR3args) nfstypes.SETATTR3re
 		util.DPrintf(1, "NFS SetAttr gid not supported %v\n", args)
 	}
 	if args.New_attributes.Size.Set_it {
+		if ip.Kind != nfstypes.NF3REG {
+			errRet(op, &reply.Status, nfstypes.NFS3ERR_INVAL)
+			return reply
+		}
 		if uint64(args.New_attributes.Size.Size) > inode.MaxFileSize() {
 			errRet(op, &reply.Status, nfstypes.NFS3ERR_FBIG)
 			return reply
